@@ -114,10 +114,17 @@ def run_job(job):
             if not KM.close(sym, real):
                 out.error = f'stand-in disagrees with the compiled kernel on {w}: {sym} vs {real}'
             out.sample({'Y': w['Y'], 'X': w['X'], 'corrected_score': real})
-    return hutil.run_symx(job, setup, body)
+    return hutil.run_symx(job, setup, body, wit=wit)
 
 
 def replay(w):
+    try:
+        return _replay(w)
+    except Exception as e:  # the real build raised
+        return {'reproduced': True, 'signature': f'C03:raises-{type(e).__name__}', 'what': f'the real estimator raises {type(e).__name__}: {str(e)[:200]} on {({k: v for k, v in w.items() if k in ("Y", "X", "r", "corr", "Y2", "map")})}'}
+
+
+def _replay(w):
     if w['cond'] == 'flag':
         loader.use_repo_on_syspath()
         import numpy as np
